@@ -290,6 +290,17 @@ Theorem C11_examples :
   shown (wall_of 10 30 0) (-300) 180 = wall_of 18 30 0.
 Proof. exact examples. Qed.
 
+(* ---- KNOWN FINDING C11-K1 in the model: `T1 Z1 to T2 Z2` written on one line fails (the second zone is left over
+        by the rule pass); with one zone on the line, or with the zoned operand in a variable, the instants are compared *)
+Theorem C11_both_zoned_refuted :
+  line_error default_config (s "10:00 EST to 12:00 CET") = Some (s "No more token") /\
+  option_map fst (run_line default_config (s "10:00 EST to 12:00")) = Some (s "3 hours") /\
+  option_map fst (run_line default_config (s "10:00 to 12:00 CET")) = Some (s "1 hour") /\
+  last_line default_config (s "a = 10:00 EST
+a to 12:00 CET") = Some (s "4 hours").
+Proof. exact both_zoned_refuted. Qed.
+
+Print Assumptions C11_both_zoned_refuted.
 Print Assumptions C11_print_clock.
 Print Assumptions C11_print_components.
 Print Assumptions C11_clock_text_inj.
